@@ -359,6 +359,10 @@ class Episode:
         self.recorder = Recorder(self.log, self.envbox)
         space = cfg.get("space", "box")
         self.space_contracts = ([Cash()] if cfg.get("cash_in_space") else []) + list(self.traded)
+        if cfg.get("cash_in_space") == "last":
+            self.space_contracts = list(self.traded) + [Cash()]
+        elif cfg.get("cash_in_space") == "middle" and len(self.traded) >= 2:
+            self.space_contracts = [self.traded[0], Cash()] + list(self.traded[1:])
         if space == "box":
             self.space = BoxPortfolio(self.space_contracts, low=cfg.get("low", -1.0), high=cfg.get("high", 2.0),
                                       as_weights=cfg.get("as_weights", True), fractional=cfg.get("fractional", True),
